@@ -116,7 +116,9 @@ class URI(object):
 
     def __str__(self):
         if self.protocol == "PYROMETA":
-            result = "PYROMETA:" + ",".join(sorted(self.object))
+            # sorted, but a tag that begins with an at-sign must come first: anywhere else the at-sign would
+            # be read as the start of the location when the text is parsed again
+            result = "PYROMETA:" + ",".join(sorted(self.object, key=lambda tag: (not tag.startswith("@"), tag)))
         else:
             result = self.protocol + ":" + self.object
         if self.location:
